@@ -70,7 +70,12 @@ const DATE_FORMATS: [&str; 14] = [
 ];
 /// Formats with a two-digit year: determinate only inside the documented
 /// pivot window 1969..=2068.
-const DATE_FORMATS_Y2: [&str; 3] = ["%y-%m-%d", "%D", "%g-W%V-%u"];
+const DATE_FORMATS_Y2: [&str; 5] = ["%y-%m-%d", "%D", "%g-W%V-%u", "%C%y-%m-%d", "%-m/%-d/%y"];
+/// Determinate formats under flags and widths: what a flag or width prints,
+/// the same flag or width reads back (no padding, space padding, wider zero
+/// padding, upper-cased names). Run over one whole 400-year cycle and the
+/// years around every digit-count step (quick) / all years (thorough).
+const DATE_FORMATS_FLAGGED: [&str; 8] = ["%-d.%-m.%-Y", "%_d %_m %_Y", "%^a %e %^b %5Y", "%05Y%03m%03d", "%-j/%-Y", "%_j %Y", "%-G-W%-V-%u", "%Y %-U %w %^B"];
 /// Formats that stay determinate for negative years (sign + 4 digits).
 const DATE_FORMATS_NEG: [&str; 7] = ["%Y-%m-%d", "%Y-%j", "%G-W%V-%u", "%A %Y-%m-%d", "%F", "%Y%m%d", "%Y %U %w"];
 
@@ -101,6 +106,24 @@ pub fn run(r: &Report) {
         r.count("roundtrip_dates.days", n);
         r.outcome("roundtrip_dates.tuesdays", tuesdays.load(Relaxed));
         r.require(n == 3_652_425, "all dates of years 0..=9999 round-tripped");
+    });
+
+    r.section("roundtrip_dates_flagged", || {
+        let fs: Vec<Fmt> = DATE_FORMATS_FLAGGED.iter().map(|t| Fmt::new(t)).collect();
+        let ranges: Vec<(i64, i64)> = if r.quick() { vec![(0, 1), (9, 10), (99, 100), (999, 1000), (1800, 2199), (9998, 9999)] } else { vec![(0, 9999)] };
+        let mut n = 0;
+        for (a, b) in ranges {
+            n += for_each_day_local(r, "roundtrip_dates_flagged", a, b, |s, l| {
+                for f in &fs {
+                    date_roundtrip(l, f, s, s.iso_y >= 0);
+                }
+            });
+        }
+        r.add_states(n);
+        r.add_transitions(n * fs.len() as u64 * 2);
+        r.add_validated(n * fs.len() as u64 * 2);
+        r.count("roundtrip_dates_flagged.days", n);
+        r.require(n >= 146_097, "a whole 400-year cycle round-tripped under flags and widths");
     });
 
     r.section("roundtrip_dates_negative", || {
@@ -189,6 +212,10 @@ pub fn run(r: &Report) {
             ("%I:%M %p", 60_000_000_000),
             ("%H", 3_600_000_000_000),
             ("%I%P", 3_600_000_000_000),
+            ("%-H:%-M:%-S%.f", 1),
+            ("%_I:%_M:%_S.%9f %#p", 1),
+            ("%3H:%3M:%3S.%f", 1),
+            ("%p %l.%M.%S", 1_000_000_000),
         ]
         .iter()
         .map(|(t, g)| (Fmt::new(t), *g))
